@@ -134,6 +134,17 @@ def walk_own(prog, v):
                 yield from walk_own(prog, x)
 
 
+def walk_own_deep(prog, sl, v, depth=0):
+    """walk_own, with the results of private workspace functions looked into as well: data rendered by a helper
+    (`fs::write(p, render(x))`) derives from whatever the helper's result derives from"""
+    for x in walk_own(prog, v):
+        yield x
+        if x[0] == 'call' and depth < 4 and x[1] in prog.fns and prog.fns[x[1]].kind != 'Closure' and x[1] not in prog.traits_methods():
+            iv = sl.inline_call(x)
+            if iv is not None:
+                yield from walk_own_deep(prog, sl, iv, depth + 1)
+
+
 def run(ctx, rep):
     prog, sl = ctx.prog, ctx.slicer
     for r, d in (('R1', 'no hash-ordered container inside serialised output types'), ('R2', 'every hash-container iteration is triaged'),
@@ -247,8 +258,19 @@ def run(ctx, rep):
     E = Effects(prog, sl)
     from . import layer_env_common as L
     wf, wt, wcalls = L.writer_scope_table(prog, sl)
-    rep.check(wt.get('process[*]') == ('env.launch', '<key>'), 'R2', 'triage-basis/process-scopes', '%s:%d' % (wf.file, wf.line),
-              'each process scope goes to its own directory named by the key', 'process scopes are no longer written one directory per key')
+    # the same obligation on which *data* a write ranges over (the delta of one element of self.process, however it
+    # reaches the write: `.entries` read in place, or the delta handed to a private helper that plans the files first):
+    # every such write goes to env.launch/<key of the same element>, and there is at least one
+    ppred = TRIAGED_SOURCE['libcnb::layer_env::LayerEnv::write_to_layer_dir'][1]
+    prows = H.process_scope_rows(prog, E, wf, lambda v: ppred(wf, v), L.param_pred(wf, 1))
+    pbad = ['%s at %s: %s' % (e.kind, e.where(), why) for e, dirs, why in prows if dirs != ('env.launch', '<key>')]
+    by_table = wt.get('process[*]') == ('env.launch', '<key>')
+    by_data = bool(prows) and not pbad
+    # (a scope the table finds in two places / in a non-literal directory is `None` there: that is a finding of its own)
+    table_contradicts = 'process[*]' in wt and not by_table
+    rep.check((by_table or by_data) and not pbad and not table_contradicts, 'R2', 'triage-basis/process-scopes', '%s:%d' % (wf.file, wf.line),
+              'each process scope goes to its own directory named by the key',
+              'process scopes are no longer written one directory per key' + (' (%s)' % '; '.join(pbad[:3]) if pbad else ''))
     rx = prog.fn(ROLES['REPLACE_EXECD'] or 'libcnb::layer::shared::replace_layer_exec_d_programs')
     xpred = TRIAGED_SOURCE['libcnb::layer::shared::replace_layer_exec_d_programs'][1]
     xrows = H.exec_d_rows(prog, E, rx, lambda v: xpred(rx, v))
@@ -320,17 +342,35 @@ def run(ctx, rep):
     sched = ['%s in %s (%s)' % (c.name, path, c.where()) for path, f in sorted(lib.items()) for c in f.calls if any(H.SCHEDULE_RX.search(n_) for n_ in c.names())]
     if sched:
         rep.unproven('R3', 'schedule', '-', 'library code runs on several threads (%s): whether the scheduler can influence output bytes is not decided' % sched[:3])
+    # a file is filled with data by `fs::write(p, data)` or — the same thing, std defines the former as the latter — by
+    # `File::create(p)` + `write_all(data)` on that handle (lib/effects.py attaches that data as a second argument).  Other
+    # shapes (several writes, a closure run on the creation result, write!/to_writer) are read by C20_helpers.created_file_data;
+    # a handle that leaves the creating function is not decided.
     leaks = []
+    blind = []
     nw = 0
     for r in roots:
         if r.path.endswith('libcnb_runtime'):
             continue
         for e in E.expand(r, 'may'):
-            if e.kind != 'WRITE' or e.call is None or not e.call.is_('std::fs::write') or len(e.args) < 2:
+            if e.kind != 'WRITE' or e.call is None:
+                continue
+            if e.call.is_('std::fs::File::create', 'std::fs::File::create_new') and len(e.args) < 2:
+                # not the one-handle-one-write_all shape: everything that is handed to a call together with the handle
+                data, why = H.created_file_data(prog, E, e)
+                if why:
+                    blind.append('%s: %s at %s (%s)' % (r.path.split('::')[-1], e.call.name, e.where(), why))
+                    continue
+            elif e.call.is_('std::fs::write', 'std::fs::File::create', 'std::fs::File::create_new') and len(e.args) >= 2:
+                data = [e.args[1]]
+            else:
                 continue
             nw += 1
-            for x in walk_own(prog, e.args[1]):
+            for x in (x for d in data for x in walk_own_deep(prog, sl, d)):
                 if x[0] == 'call' and x[1] in ENV_NAMES:
                     leaks.append('%s written at %s derives from %s' % (r.path.split('::')[-1], e.where(), x[1]))
     rep.check(not leaks, 'R4', 'written-data', '-', '%d write effects, none of whose data derives from an environment read' % nw, 'environment leaks into written data: %s' % sorted(set(leaks))[:4])
+    if blind:
+        rep.unproven('R4', 'written-data/unknown', '-', 'files are created whose written data is not a single known value (%s): whether it derives from '
+                     'an environment read is not decided' % '; '.join(sorted(set(blind))[:3]))
     rep.floor('R4', 'write_effects', nw)
